@@ -339,7 +339,7 @@ func checkC11(tier string) {
 	var jobs []HJob
 	metas := map[int]*meta{}
 	rng := r.Rand("cli")
-	nh := r.Pick(6, 60)
+	nh := r.Pick(12, 200)
 	for _, unit := range []string{"sec", "min", "hour"} {
 		for _, n := range []int{1, 2, 5, 10, 100} {
 			src := fmt.Sprintf("@ GET /lim {\n  + ratelimit(%d/%s)\n  > {marker: \"BODY-RAN\"}\n}\n", n, unit)
@@ -429,7 +429,7 @@ func checkC11(tier string) {
 		}
 	}
 	// (2) library level, plain and under the race detector
-	nl := r.Pick(400, 20000)
+	nl := r.Pick(1500, 100000)
 	onDeath := func(i int, co mon.ChildOut, hang *mon.Rec) bool {
 		r.Violate("library-worker-died:"+co.Death, mon.PanicExcerpt(co.Tail, 10), map[string]interface{}{"case": i})
 		return true
